@@ -49,6 +49,8 @@ def generate(rng, tier):
         rng.shuffle(seqs)
         seqs = seqs[:250] + extra
     cases = []
+    fixed = [("F", "F", "T"), ("T", "F", "T"), ("F", "KG:m", "F")]
+    seqs = [f for f in fixed for _ in range(3)] + list(seqs)
     for i, seq in enumerate(seqs):
         nq = rng.choice([3, 6, rng.randint(3, 25)])
         dq = rng.choice([0.05, 0.1, 0.2])
@@ -60,10 +62,10 @@ def generate(rng, tier):
         r0 = rng.choice([0.0, drr])
         dr = [r0 + j * drr for j in range(nr)]
         mat = L.material(rng)
-        cases.append({"q": q, "sq": [float(v) for v in sq], "dr": dr, "mat": mat, "fn": i % 3, "lowq": bool((i // 3) % 2),
-                      "cutoff": rng.choice([dr[1], dr[-1] * 0.6, dr[-1] + 1.0]), "ops": list(seq),
+        cases.append({"q": q, "sq": [float(v) for v in sq], "dr": dr, "mat": mat, "fn": i % 3, "lowq": bool((i // 3) % 2) if i >= 9 else bool(i % 2),
+                      "cutoff": (dr[-1] + 1.0 if i < 9 else rng.choice([dr[1], dr[-1] * 0.6, dr[-1] + 1.0])), "ops": list(seq),
                       "gq": rng.choice([None, None, (None, q[-1] + 0.37), (q[0] - 0.05, q[-1] + 2.0), (None, q[-1])]),
-                      "desc": {"ops": " ".join(seq), "fn": SL.FNS[i % 3], "lowq": bool((i // 3) % 2), "n_ops": len(seq), "r0_is_0": r0 == 0.0}})
+                      "desc": {"ops": " ".join(seq), "fn": SL.FNS[i % 3], "lowq": bool((i // 3) % 2) if i >= 9 else bool(i % 2), "n_ops": len(seq), "r0_is_0": r0 == 0.0}})
     return cases
 
 
